@@ -5,3 +5,36 @@ From CAres.Gen Require Import Consts.
 Theorem C19_array_at_refines : forall a idx, arr_at a idx = nth_error (arr_abs a) idx.
 Proof. exact arr_at_refines. Qed.
 Print Assumptions C19_array_at_refines.
+
+(* ---- the byte buffer (src/lib/str/ares_buf.c): coq/Dsa/Buf.v, Buf_proofs.v ---- *)
+From CAres.Dsa Require Import Buf Buf_proofs.
+
+Theorem C19_buf_append_refines : forall junk ok b bytes,
+  buf_inv b -> (buf_zlen bytes < BUF_ALLOC_LIMIT)%Z ->
+  exists st b', buf_append junk ok b bytes = Ok (st, b') /\ buf_inv b' /\
+    In (st, buf_abs b') (spec_append_alts (buf_abs b) bytes) /\
+    ((forall i, (0 <= junk i < 256)%Z) -> buf_bytes_ok (b_mem b) -> buf_bytes_ok bytes -> buf_bytes_ok (b_mem b')) /\
+    (st = ARES_ENOMEM -> ok = false \/ (BUF_ALLOC_LIMIT <= 2 * b_alloc b)%Z \/
+                         (BUF_ALLOC_LIMIT <= 2 * (b_dlen b + buf_zlen bytes + 1))%Z).
+Proof. exact buf_append_refines. Qed.
+Print Assumptions C19_buf_append_refines.
+
+Theorem C19_buf_fetch_bytes_refines : forall b n, buf_inv b -> (0 <= n)%Z ->
+  exists st b' out, buf_fetch_bytes b n = Ok (st, b', out) /\ buf_inv b' /\
+                    (st, buf_abs b', out) = spec_fetch_bytes (buf_abs b) n.
+Proof. exact buf_fetch_bytes_refines. Qed.
+Print Assumptions C19_buf_fetch_bytes_refines.
+
+Theorem C19_buf_tag_rollback_refines : forall b, buf_inv b ->
+  exists st b', buf_tag_rollback b = Ok (st, b') /\ buf_inv b' /\
+                (st, buf_abs b') = spec_tag_rollback (buf_abs b).
+Proof. exact buf_tag_rollback_refines. Qed.
+Print Assumptions C19_buf_tag_rollback_refines.
+
+Theorem C19_buf_reclaim_refines : forall b, buf_inv b ->
+  exists b', buf_reclaim b = Ok b' /\ buf_inv b' /\ buf_abs b' = spec_trim (buf_abs b) /\
+             b_alloc b' = b_alloc b /\ (b_dlen b' <= b_dlen b)%Z /\
+             b_hasdata b' = b_hasdata b /\ b_hasabuf b' = b_hasabuf b /\
+             (buf_bytes_ok (b_mem b) -> buf_bytes_ok (b_mem b')).
+Proof. exact buf_reclaim_refines. Qed.
+Print Assumptions C19_buf_reclaim_refines.
